@@ -115,10 +115,61 @@ func TestVerifC01(t *testing.T) {
 			res = nil
 		},
 		Replay: func(ch []int) (*mc.Failure, []string) { return mc.ReplayOne(run, ch) }}
-	// the single job shards its own tree, so every worker runs it
-	env2 := *env
-	_ = env2
-	mc.RunJobsAll("C01", []mc.Job{job})
+	// header matchers, systematically: one entry with 1-2 matchers (values only, regexp only, both agreeing, both
+	// contradicting) on headers X / Y, with and without matchAllHeader, with and without a later header-less
+	// entry, against every combination of request header values incl. absent headers
+	xm := []vHdr{{Key: "X", Values: []string{"1"}}, {Key: "X", Regexp: "^2$"}, {Key: "X", Values: []string{"1", "3"}, Regexp: "^[12]$"}, {Key: "X", Values: []string{"2"}, Regexp: "^1$"}, {Key: "X", Regexp: "^$"}}
+	ym := []vHdr{{Key: "Y", Values: []string{"1"}}, {Key: "Y", Regexp: "^1$"}, {Key: "Y", Values: []string{"1", "2"}, Regexp: "^2$"}}
+	var hreqs []vReq
+	for _, x := range []string{"", "1", "2", "3"} {
+		for _, y := range []string{"", "1", "2"} {
+			q := vReq{Host: "a.com", Path: "/a", Method: "GET"}
+			if x != "" {
+				q.Hdr = append(q.Hdr, [2]string{"X", x})
+			}
+			if y != "" {
+				q.Hdr = append(q.Hdr, [2]string{"Y", y})
+			}
+			hreqs = append(hreqs, q)
+		}
+	}
+	hdrRun := func(c *mc.Ctx) {
+		e := vEntry{Path: "/a", Backend: "p1"}
+		order := c.Choose(2, "y-first")
+		hx := xm[c.Choose(len(xm), "x-matcher")]
+		e.Headers = []vHdr{hx}
+		if k := c.Choose(len(ym)+1, "y-matcher"); k > 0 {
+			if order == 1 {
+				e.Headers = []vHdr{ym[k-1], hx}
+			} else {
+				e.Headers = append(e.Headers, ym[k-1])
+			}
+		}
+		e.MatchAll = c.Choose(2, "matchAllHeader") == 1
+		r := vRule{Entries: []vEntry{e}}
+		if c.Choose(2, "fallback-entry") == 1 {
+			r.Entries = append(r.Entries, vEntry{Path: "/a", Backend: "p2"})
+		}
+		rules := []vRule{r}
+		y := vServerYAML(rules, "")
+		c.Note("spec:\n%s", y)
+		rig, err := newVRig(y)
+		if err != nil {
+			c.Failf("spec-rejected", "validation rejected a rule set of the alphabet: %v\n%s", err, y)
+		}
+		rig.backends = backends
+		for _, q := range hreqs {
+			got := rig.do(q)
+			want := refRoute(rules, q, backends)
+			if got.Status != want.Status || got.Backend != want.Backend || got.Path != want.Path {
+				c.Note("request: %s", q)
+				c.Failf(fmt.Sprintf("header-matchers:want=%d/%s,got=%d/%s", want.Status, c01cls(want, q), got.Status, c01cls(got, q)),
+					"request %s\nexpected %s\nobserved %s\nspec:\n%s", q, want, got, y)
+			}
+			c.AddOutcome(fmt.Sprintf("hdr-%d-%s", want.Status, want.Backend))
+		}
+	}
+	mc.RunJobsAll("C01", []mc.Job{job, mc.ExploreJob(mc.Options{Job: "header-matchers", MaxDev: -1}, hdrRun)})
 }
 
 // c01cls classifies an observation for the finding key.
